@@ -5,7 +5,7 @@
 (* (set of failed clauses) is printed as one JSON line when non-empty.     *)
 (* Acceptance = every line of the trace file was consumed.                 *)
 (***************************************************************************)
-EXTENDS JudgeTx, JudgeSat, JudgeGraph, JudgeLint, JudgeApi, JudgeComp, JudgeFrame, Json, IOUtils
+EXTENDS JudgeTx, JudgeSat, JudgeGraph, JudgeLint, JudgeApi, JudgeComp, JudgeFrame, JudgeLogic, Json, IOUtils
 
 Tr == ndJsonDeserialize(IOEnv.TRACE_FILE)
 
@@ -38,6 +38,9 @@ JudgeEvent(e) ==
     [] e.kind = "strip_blackboxes" -> Judge_strip_blackboxes(e)
     [] e.kind = "frame" -> Judge_frame(e)
     [] e.kind = "alias" -> Judge_alias(e)
+    [] e.kind = "logic" -> Judge_logic(e)
+    [] e.kind = "clog2" -> Judge_clog2(e)
+    [] e.kind = "int_to_bin" -> Judge_int_to_bin(e)
     [] e.kind = "api_history"  -> Judge_api_history(e)
     [] OTHER -> {"MACHINERY:unknown_kind"}
 
